@@ -160,7 +160,20 @@ def op_sql(c, kind, m: Model):
     return None
 
 
-def do(conns, c, kind, sql, use_cur2):
+def pick_cursor(conns, c, policy):
+    """Which cursor object issues the next statement of connection c. 'fresh': a new cursor per statement; 'one': one
+    cursor object per connection for the whole history; 'two': the statements of a connection alternate between two
+    cursor objects. (COMMIT / ROLLBACK as connection methods never go through these cursors.)"""
+    conn = conns[c]
+    if policy == "fresh":
+        return conn.cursor()
+    pool = conns.setdefault("_cursors", {}).setdefault(c, {"n": 0, "curs": [conn.cursor() for _ in range(1 if policy == "one" else 2)]})
+    cur = pool["curs"][pool["n"] % len(pool["curs"])]
+    pool["n"] += 1
+    return cur
+
+
+def do(conns, c, kind, sql, policy="fresh"):
     conn = conns[c]
     try:
         if kind == "commit()":
@@ -169,7 +182,7 @@ def do(conns, c, kind, sql, use_cur2):
         if kind == "rollback()":
             conn.rollback()
             return ("ok", None)
-        cur = conn.cursor()
+        cur = pick_cursor(conns, c, policy)
         if sql.startswith("EM:"):
             stmt, vals = sql[3:].split("|")
             cur.executemany(stmt, [(int(v),) for v in vals.split(",")])
@@ -196,7 +209,7 @@ def observe_all(conns):
     return out
 
 
-def build(hist):
+def build(hist, policy="fresh"):
     import fakesnow.instance as inst
 
     fs = inst.FakeSnow()
@@ -208,7 +221,7 @@ def build(hist):
     for c, kind in hist:
         sql = op_sql(c, kind, m)
         m.step(c, kind)
-        do(conns, c, kind, sql, False)
+        do(conns, c, kind, sql, policy)
     return fs, conns, m
 
 
@@ -217,13 +230,17 @@ def txstate(m, c):
 
 
 def expand(item, acc: core.Acc, tier):
-    hist, (c, kind) = item
-    fs, conns, m = build(hist)
+    policy = "fresh"
+    if len(item) == 3:
+        hist, (c, kind), policy = item
+    else:
+        hist, (c, kind) = item
+    fs, conns, m = build(hist, policy)
     try:
         pre_tx = {x: txstate(m, x) for x in "AB"}
         sql = op_sql(c, kind, m)
         want = m.step(c, kind)
-        got = do(conns, c, kind, sql, False)
+        got = do(conns, c, kind, sql, policy)
         obs = observe_all(conns)
     finally:
         fs.duck_conn.close()
@@ -232,8 +249,16 @@ def expand(item, acc: core.Acc, tier):
     acc.count("traces")
     acc.obs((hist, c, kind, got, sorted((k, sorted(v.items())) for k, v in obs.items())))
     acc.outcome((c, kind, got[0], pre_tx[c], repr(sorted(obs["B.cur1"].items()))[:60]))
-    rp = {"history": hist, "op": [c, kind], "sql": sql}
+    rp = {"history": hist, "op": [c, kind], "sql": sql, "cursors": policy}
     cls0 = f"conn={c},op={kind},self={pre_tx[c]},other={pre_tx['B' if c == 'A' else 'A']}"
+    if policy != "fresh":
+        # how the connection's previous transaction (if any) ended matters for state kept per cursor object
+        ended, mm = "never", Model()
+        for cc, k in hist:
+            if cc == c and k in ("commit", "rollback", "commit()", "rollback()") and mm.pending[cc] is not None:
+                ended = k
+            mm.step(cc, k)
+        cls0 += f",cursors={policy},last_tx_end={ended}"
     ok = True
     if want == "fail":
         if got[0] != "err":
@@ -255,7 +280,7 @@ def expand(item, acc: core.Acc, tier):
                 clause = "C13.own_writes_visible" if who == "own" else "C13.isolation"
                 acc.violation(
                     clause,
-                    f"after={c}.{kind},reader={cname},table={t},reader_tx={txstate(m, cc)}",
+                    f"after={c}.{kind},reader={cname},table={t},reader_tx={txstate(m, cc)}" + ("" if policy == "fresh" else f",cursors={policy}"),
                     {"expected_one_of": acceptable, "got": rows, "after": sql},
                     rp,
                 )
@@ -269,6 +294,20 @@ def expand(item, acc: core.Acc, tier):
     # connections) would make such a step matter for what follows, so the step is kept as part of the state key:
     # the successor is explored again "after a no-op by <connection>".
     noop = kind in ("commit", "rollback", "commit()", "rollback()") and pre_tx[c] == "no_tx" or kind.startswith("fail")
+    if policy != "fresh":
+        # Cursor objects live as long as the history, so what a cursor remembers is state the model does not have.
+        # A history that returns to a known model state (BEGIN .. COMMIT) is therefore NOT merged with it: the key
+        # keeps the last operation of either connection and how its last transaction ended (finite refinement of every
+        # model state).
+        full = list(hist) + [(c, kind)]
+        last = {x: next((k for cc, k in reversed(full) if cc == x), None) for x in "AB"}
+        ended = {"A": None, "B": None}  # how the connection's last *open* transaction was ended
+        mm = Model()
+        for cc, k in full:
+            if k in ("commit", "rollback", "commit()", "rollback()") and mm.pending[cc] is not None:
+                ended[cc] = k
+            mm.step(cc, k)
+        return (m.key(), ("cursors", policy, last["A"], last["B"], ended["A"], ended["B"]))
     return (m.key(), (c, kind) if noop else None)
 
 
@@ -279,7 +318,10 @@ def run(ctx: core.Ctx):
         "BFS over all interleavings of transactional operations on two connections (A: BEGIN, INSERT/UPDATE/DELETE on TA, "
         "CREATE TABLE, COMMIT/ROLLBACK as SQL and as connection methods, failing statement; B: BEGIN, INSERT on TB, COMMIT, "
         "rollback(), failing statement); state = committed store + pending working copies + acceptable snapshot versions; "
-        "after every transition all three cursors read all three tables; non-trivial = distinct reached model state"
+        "after every transition all three cursors read all three tables; non-trivial = distinct reached model state. "
+        "Phase 2 repeats the search with long-lived cursor objects (one per connection / two alternating) on a reduced "
+        "alphabet, keeping the last operation of each connection in the state key so that histories returning to a "
+        "known model state are still continued"
     )
     ctx.assumptions = ["writes of the two connections never conflict (different tables)", "DuckDB MVCC is the trusted base for visibility"]
     m0 = Model()
@@ -308,18 +350,50 @@ def run(ctx: core.Ctx):
         if len(frontier) * len(ops) > cap and d < depth:
             capped = True
             break
+    main_left = len(frontier)
+    # ---- phase 2: long-lived cursor objects (reduced alphabet, refined state key, see expand) ------------------------
+    ops2 = [("A", o) for o in ("begin", "ins", "commit", "rollback", "commit()", "rollback()", "fail")] + [("B", o) for o in ("begin", "ins")]
+    depth2 = 4 if ctx.quick else 5
+    phase2 = {}
+    for policy in ("one", "two"):
+        seen2 = {(m0.key(), ("cursors", policy, None, None, None, None))}
+        frontier = [[]]
+        d2 = 0
+        n2 = 0
+        while frontier and d2 < depth2:
+            items = []
+            for hist in frontier:
+                m = Model()
+                for c, kind in hist:
+                    m.step(c, kind)
+                for c, kind in ops2:
+                    if m.enabled(c, kind):
+                        items.append((hist, (c, kind), policy))
+            n2 += len(items)
+            res = ctx.pmap(expand, items, recheck=(d2 == 2))
+            cands = sorted(((k, it[0] + [it[1]]) for it, k in res if k is not None), key=lambda x: (repr(x[0]), repr(x[1])))
+            frontier = []
+            for k, hist in cands:
+                if k not in seen2:
+                    seen2.add(k)
+                    frontier.append(hist)
+            d2 += 1
+        for k in seen2:
+            ctx.acc.add("states", k)
+        phase2[policy] = {"depth_completed": d2, "transitions": n2, "states": len(seen2), "frontier_left_unexpanded": len(frontier)}
+    ctx.extra["long_lived_cursors"] = phase2
     for k in seen:
         ctx.acc.add("states", k)
     ctx.extra["bound"] = f"depth {d} completed" + (f" (stopped before depth {d + 1}: transition cap {cap})" if capped else "")
     ctx.extra["cap_hit"] = capped
-    ctx.extra["frontier_left_unexpanded"] = len(frontier)
+    ctx.extra["frontier_left_unexpanded"] = main_left
     ctx.exhaustive = False
 
 
 def replay(payload):
     r = payload["replay"]
     acc = core.Acc()
-    expand(([tuple(x) for x in r["history"]], tuple(r["op"])), acc, "thorough")
+    expand(([tuple(x) for x in r["history"]], tuple(r["op"]), r.get("cursors", "fresh")), acc, "thorough")
     for k, v in acc.viol.items():
         print(k, v["detail"])
     return bool(acc.viol)
